@@ -80,7 +80,7 @@ def run(rep, tier):
                        "TLC/SANY, the structural codecs of harness/drivers/c20.py, CPython"]
     cfg = "C20_Hoare_small.cfg" if quick else "C20_Hoare_deep.cfg"
     vec, semvec = wd / "vectors.ndjson", wd / "semvectors.ndjson"
-    r = model_check(SSPEC, cfg, wd=wd / "mc", workers=4, env={"VECTOR_FILE": vec, "VECTOR_FILE_SEM": semvec}, timeout=3600)
+    r = model_check(SSPEC, cfg, wd=wd / "mc", workers=2 if quick else 4, env={"VECTOR_FILE": vec, "VECTOR_FILE_SEM": semvec}, timeout=3600)
     rep.add_mc(SSPEC, r, cfg)
     if r.violated:
         rep.design_violation(SSPEC, r)
